@@ -59,8 +59,13 @@ def features(case):
         if len(set(keys)) < len(keys):
             out.append("dup-key-in-block")
             break
+    used = {n[2] for n in graph["nodes"] if not n[3]}
+    if any(b["name"] in used and b["name"] != "MR" and b["atoms"][0]["resid"] != 1 for b in ff["blocks"]):
+        out.append("block-resid-not-1")
     if any(l["kind"] == "remove" for l in ff["links"]):
         out.append("atom-removed-by-link")
+    if any(l["kind"] == "multiterm" for l in ff["links"]) and any(b["syntax"] == "itp" for b in ff["blocks"]):
+        out.append("link-multiterm-file-order")
     nodes = sorted(graph["nodes"], key=lambda n: n[1])
     if _fragments_out_of_order(graph):
         out.append("fragments-out-of-insertion-order")
@@ -122,8 +127,13 @@ def _itp_on_cycle(graph):
     return any(itp & set(cycle) for cycle in nx.cycle_basis(g))
 
 
-def shape_of(case, kind):
+def shape_of(case, kind, out=None):
     feats = features(case)
+    if out is not None and "atom-removed-by-link" in feats:
+        removed = {op["node"] for op in out.get("linkops") or [] if op["op"] == "remove"}
+        versions = {1} | {i["meta"].get("version", 1) for b in case["ff"]["blocks"] for i in b["ixns"]}
+        if removed & versions:
+            return "removed-node-id-equals-version"
     return feats[0] if feats else GENERIC[kind]
 
 
@@ -212,10 +222,11 @@ def requests_of(case, out):
     if case["mods"]:
         mods = [[resid, name, resname] for resid, resname, name in real.parse_mods(case["mods"])]
     genexcl = generated_exclusions(out)
-    run = dict(op="run", ff=mff, graph=graph, linkops=out.get("linkops") or [], genexcl=genexcl, mods=mods)
+    applied_ops = [op for op in out.get("linkops") or [] if op["op"] != "leak"]
+    run = dict(op="run", ff=mff, graph=graph, linkops=applied_ops, genexcl=genexcl, mods=mods)
     spec = dict(op="spec", ff=mff, nodes=graph["nodes"], obs=out.get("map"))
     keys, attrs, removed = [], [], []
-    for op in out.get("linkops") or []:
+    for op in applied_ops:
         if op["op"] == "insert":
             sect, atoms, params, meta = op["ixn"]
             keys.append([sect, atoms, dict(meta).get("version", "1")])
@@ -300,7 +311,7 @@ def judge(ctx, case, out, answers, tag="random"):
                             % "; ".join(spec["diffs"][:3]), replay)
         if frame["diffs"]:
             verdict = "frame"
-            ctx.oracle_fail(shape_of(case, "frame"),
+            ctx.oracle_fail(shape_of(case, "frame", out),
                             "final molecule differs from the block copies where no link or modification "
                             "targets it: %s" % "; ".join(frame["diffs"][:3]), replay)
         e2e = out.get("e2e")
@@ -396,7 +407,7 @@ def run(ctx):
     ctx.extra["explanation"] = "finding streams enabled: %s" % (findings or "none")
     run_batch(ctx, corpus_cases(), "corpus")
     run_batch(ctx, small_cases(rng, ctx.thorough), "small")
-    count = ctx.budget(110, 1500)
+    count = ctx.budget(900, 12000)
     cases = []
     for idx in range(count):
         kw = {}
@@ -416,7 +427,7 @@ def run(ctx):
             tries += 1
             case = make_case(sub, findings=(shape,), protein=True if shape.startswith("mod") else None,
                              multires=True if "fragment" in shape or "multires" in shape else None)
-            if shape in features(case):
+            if shape in features(case) or (shape == "removed-node-id-equals-version" and "atom-removed-by-link" in features(case)):
                 fcases.append(case)
         run_batch(ctx, fcases, "finding:" + shape)
 
